@@ -18,14 +18,15 @@ CONSTANTS Dir,          \* "push" | "pull"
           MaxPauses,    \* application pause/resume pairs allowed per side
           MaxRestarts,  \* application-level restarts (RestartDataTransferChannel on either node) allowed
           MaxCloses,    \* application-level closes (CloseDataTransferChannel on either node) allowed
+          MaxBounces,   \* process bounces (a node's process stops and starts again over the same datastore, at a quiescent point)
           MaxVouchers,  \* further vouchers the initiator's application sends / voucher results the responder's application sends (each)
           OldEnds,      \* ways in which a transport request SUPERSEDED by a restart may still report its end, late, to either side:
                         \*   subset of {"cancelled" (OnRequestCancelled), "error" (OnChannelCompleted with an error), "silent"}
           MaxLen,       \* history bound
           DumpAtEnd     \* BOOLEAN: print the history when the run is over (simulation)
 
-VARIABLES ch, net, gs, todo, lim, pauses, restarts, closes, vsent, h, done
-vars == <<ch, net, gs, todo, lim, pauses, restarts, closes, vsent, h, done>>
+VARIABLES ch, net, gs, todo, lim, pauses, restarts, closes, vsent, bounces, h, done
+vars == <<ch, net, gs, todo, lim, pauses, restarts, closes, vsent, bounces, h, done>>
 
 Limits == CASE LimitsId = "l2" -> <<2, 0>> [] LimitsId = "l3" -> <<3, 0>> [] LimitsId = "l2_4" -> <<2, 4, 0>> [] OTHER -> << >>
 Pull == Dir = "pull"
@@ -55,7 +56,7 @@ Init ==
   /\ net = IF Pull THEN << >> ELSE << [to |-> "B", msg |-> NewReq] >>
   /\ gs = IF Pull THEN [NoGs EXCEPT !.st = "open", !.ext = NewReq, !.opens = 1] ELSE NoGs
   /\ todo = IF Pull THEN << [node |-> "A", kind |-> "OnChannelOpened", i |-> 0] >> ELSE << >>
-  /\ lim = 1 /\ pauses = [n \in {"A","B"} |-> 0] /\ restarts = 0 /\ closes = 0 /\ vsent = [n \in {"A","B"} |-> 0] /\ h = << >> /\ done = FALSE
+  /\ lim = 1 /\ pauses = [n \in {"A","B"} |-> 0] /\ restarts = 0 /\ closes = 0 /\ vsent = [n \in {"A","B"} |-> 0] /\ bounces = 0 /\ h = << >> /\ done = FALSE
 
 (* ---- one stimulus on node n: apply Mgr!Handle, route its outputs ---- *)
 StimOf(n, kind, from, msg, val, args) == [Stim0 EXCEPT !.kind = kind, !.c = "c1", !.from = from, !.msg = msg, !.val = val, !.args = args]
@@ -101,14 +102,14 @@ NetDeliver(i) ==
                      Other(m.to), m.msg, IF lim = 1 THEN Val0 ELSE ValAt(lim), ZeroArgs)
          rest == SubSeq(net, 1, i-1) \o SubSeq(net, i+1, Len(net))
      IN Do(m.to, s, gs, rest, todo)
-  /\ UNCHANGED <<lim, pauses, restarts, closes, vsent, done>>
+  /\ UNCHANGED <<lim, pauses, restarts, closes, vsent, bounces, done>>
 
 (* ---- follow-up callbacks the adapter makes on its own (OnChannelOpened after OpenChannel) ---- *)
 Todo ==
   /\ Live /\ todo # << >>
   /\ Head(todo).kind = "OnChannelOpened"
   /\ LET t == Head(todo) IN Do(t.node, StimOf(t.node, t.kind, Other(t.node), NoMsg, Val0, ZeroArgs), gs, net, Tail(todo))
-  /\ UNCHANGED <<lim, pauses, restarts, closes, vsent, done>>
+  /\ UNCHANGED <<lim, pauses, restarts, closes, vsent, bounces, done>>
 
 (* ---- graphsync: the request reaches the responder side ---- *)
 GsArrive ==
@@ -120,25 +121,25 @@ GsArrive ==
                           !.rsPaused = (r = "pause"),
                           !.st = IF r \in {"nil","pause"} THEN "open" ELSE "done"]
      IN Do(Rs, s, g1, net, todo)
-  /\ UNCHANGED <<lim, pauses, restarts, closes, vsent, done>>
+  /\ UNCHANGED <<lim, pauses, restarts, closes, vsent, bounces, done>>
 GsInitiated(n) ==      \* the transport reports that the request started processing (once per side and request)
   /\ Live /\ gs.st = "open" /\ gs.arrived /\ ch[n].has /\ n \notin gs.initd /\ todo = << >>
   /\ Do(n, StimOf(n, "OnTransferInitiated", Other(n), NoMsg, Val0, ZeroArgs), [gs EXCEPT !.initd = @ \cup {n}], net, todo)
-  /\ UNCHANGED <<lim, pauses, restarts, closes, vsent, done>>
+  /\ UNCHANGED <<lim, pauses, restarts, closes, vsent, bounces, done>>
 GsToRq ==
   /\ Live /\ gs.st \in {"open","done"} /\ gs.toRq # << >>
   /\ LET m == Head(gs.toRq)
          s == StimOf(Rq, IF m.isReq THEN "OnRequestReceived" ELSE "OnResponseReceived", Rs, m, ValAt(lim), ZeroArgs)
          g1 == [gs EXCEPT !.toRq = Tail(@), !.rqPaused = (@ \/ Ret(Rq, s) = "pause")]
      IN Do(Rq, s, g1, net, todo)
-  /\ UNCHANGED <<lim, pauses, restarts, closes, vsent, done>>
+  /\ UNCHANGED <<lim, pauses, restarts, closes, vsent, bounces, done>>
 GsToRs ==
   /\ Live /\ gs.st = "open" /\ gs.arrived /\ gs.toRs # << >>
   /\ LET m == Head(gs.toRs)
          s == StimOf(Rs, IF m.isReq THEN "OnRequestReceived" ELSE "OnResponseReceived", Rq, m, ValAt(lim), ZeroArgs)
          g1 == [gs EXCEPT !.toRs = Tail(@), !.rsPaused = (@ \/ Ret(Rs, s) = "pause")]
      IN Do(Rs, s, g1, net, todo)
-  /\ UNCHANGED <<lim, pauses, restarts, closes, vsent, done>>
+  /\ UNCHANGED <<lim, pauses, restarts, closes, vsent, bounces, done>>
 
 (* ---- one block: queued (+sent if on the wire) at the sender, received at the receiver; three history steps ---- *)
 BArgs(i) == [ZeroArgs EXCEPT !.delta = BSize(i), !.index = i, !.unique = Uniq(i)]
@@ -150,7 +151,7 @@ GsQueue ==
          r == Ret(Rs, s)  rep == Reply(Rs, s)
          g1 == [gs EXCEPT !.next = i + 1, !.rsPaused = (r = "pause"), !.toRq = IF rep.kind # "none" THEN Append(@, rep) ELSE @]
      IN Do(Rs, s, g1, net, << [node |-> Rs, kind |-> "OnDataSent", i |-> i], [node |-> Rq, kind |-> "OnDataReceived", i |-> i] >>)
-  /\ UNCHANGED <<lim, pauses, restarts, closes, vsent, done>>
+  /\ UNCHANGED <<lim, pauses, restarts, closes, vsent, bounces, done>>
 BlockTodo ==
   /\ Live /\ todo # << >> /\ Head(todo).kind \in {"OnDataSent","OnDataReceived"}
   /\ LET t == Head(todo)
@@ -159,7 +160,7 @@ BlockTodo ==
      IN (IF t.kind = "OnDataSent" /\ ~Uniq(t.i)
          THEN UNCHANGED <<ch, net, gs, h>> /\ todo' = Tail(todo)       \* nothing on the wire: no sent accounting
          ELSE Do(t.node, s, g1, net, Tail(todo)))
-  /\ UNCHANGED <<lim, pauses, restarts, closes, vsent, done>>
+  /\ UNCHANGED <<lim, pauses, restarts, closes, vsent, bounces, done>>
 
 (* ---- completion is reported to both sides, in either order ---- *)
 GsComplete(n) ==
@@ -167,7 +168,7 @@ GsComplete(n) ==
   /\ (IF n = Rq THEN ~gs.doneRq ELSE ~gs.doneRs)
   /\ LET g1 == IF n = Rq THEN [gs EXCEPT !.doneRq = TRUE] ELSE [gs EXCEPT !.doneRs = TRUE] IN
        Do(n, StimOf(n, "OnChannelCompleted", Other(n), NoMsg, Val0, ZeroArgs), g1, net, todo)
-  /\ UNCHANGED <<lim, pauses, restarts, closes, vsent, done>>
+  /\ UNCHANGED <<lim, pauses, restarts, closes, vsent, bounces, done>>
 
 (* ---- the responder's application: re-validates when paused by a limit, releases finalization ---- *)
 AppValidate ==
@@ -178,12 +179,12 @@ AppValidate ==
          v == IF fin THEN Res(TRUE, FALSE, "", FALSE, ch["B"].rec.limit, FALSE) ELSE ValAt(lim + 1)
      IN Do("B", StimOf("B", "UpdateValidation", "A", NoMsg, v, ZeroArgs), gs, net, todo)
         /\ lim' = IF fin THEN lim ELSE lim + 1
-  /\ UNCHANGED <<pauses, restarts, closes, vsent, done>>
+  /\ UNCHANGED <<pauses, restarts, closes, vsent, bounces, done>>
 AppPause(n) ==
   /\ Live /\ ch[n].has /\ pauses[n] < 2 * MaxPauses /\ todo = << >> /\ ch[n].rec.status \in PauseStates
   /\ Do(n, StimOf(n, IF pauses[n] % 2 = 0 THEN "Pause" ELSE "Resume", Other(n), NoMsg, Val0, ZeroArgs), gs, net, todo)
   /\ pauses' = [pauses EXCEPT ![n] = @ + 1]
-  /\ UNCHANGED <<lim, restarts, closes, vsent, done>>
+  /\ UNCHANGED <<lim, restarts, closes, vsent, bounces, done>>
 
 (* either application restarts the channel: the creator re-issues the request (push: Restart request on the network;  *)
 (* pull: a new graphsync request that skips the blocks already received), the receiver of the channel asks the       *)
@@ -192,7 +193,7 @@ AppRestart(n) ==
   /\ Live /\ ch[n].has /\ restarts < MaxRestarts /\ todo = << >> /\ ch[n].rec.status \notin Terminal
   /\ Do(n, StimOf(n, "Restart", Other(n), NoMsg, ValAt(lim), ZeroArgs), gs, net, todo)
   /\ restarts' = restarts + 1
-  /\ UNCHANGED <<lim, pauses, closes, vsent, done>>
+  /\ UNCHANGED <<lim, pauses, closes, vsent, bounces, done>>
 
 (* the request a restart superseded ends late: the adapter reports it to the manager like the end of any request *)
 ErrArgs == [ZeroArgs EXCEPT !.err = "e1"]
@@ -202,14 +203,30 @@ GsOldEnd(n, how) ==
       (CASE how = "cancelled" -> Do(n, StimOf(n, "OnRequestCancelled", Other(n), NoMsg, Val0, ErrArgs), g1, net, todo)
          [] how = "error"     -> Do(n, StimOf(n, "OnChannelCompleted", Other(n), NoMsg, Val0, ErrArgs), g1, net, todo)
          [] OTHER             -> (gs' = g1 /\ UNCHANGED <<ch, net, todo, h>>))
-  /\ UNCHANGED <<lim, pauses, restarts, closes, vsent, done>>
+  /\ UNCHANGED <<lim, pauses, restarts, closes, vsent, bounces, done>>
 
 (* either application closes (cancels) the channel *)
 AppClose(n) ==
   /\ Live /\ ch[n].has /\ closes < MaxCloses /\ todo = << >> /\ ch[n].rec.status \notin Terminal
   /\ Do(n, StimOf(n, "Close", Other(n), NoMsg, Val0, ZeroArgs), gs, net, todo)
   /\ closes' = closes + 1
-  /\ UNCHANGED <<lim, pauses, restarts, vsent, done>>
+  /\ UNCHANGED <<lim, pauses, restarts, vsent, bounces, done>>
+
+(* a node's process stops and starts again over the same datastore (quiescent: nothing of the manager is in flight): its caches are   *)
+(* gone (they are re-seeded lazily from the durable record), messages on their way to it are lost, the live transport request ends -   *)
+(* nothing is reported to the bounced node, the other side hears of it late (OldEnds) or not at all. Nothing restarts by itself: an      *)
+(* application restart (AppRestart, on either node) heals the transfer.                                                                  *)
+Bounce(n) ==
+  /\ Live /\ ch[n].has /\ bounces < MaxBounces /\ todo = << >> /\ ch[n].rec.status \notin Terminal \cup Cleanup
+  /\ ch' = [ch EXCEPT ![n].cache = FreshCache]
+  /\ net' = SelectSeq(net, LAMBDA m : m.to # n)
+  /\ gs' = IF gs.st = "open"
+            THEN [NoGs EXCEPT !.opens = gs.opens,
+                              !.old = (gs.old \ {n}) \cup (IF OldEnds # {} /\ (Other(n) = Rq \/ gs.arrived) THEN {Other(n)} ELSE {})]
+            ELSE [gs EXCEPT !.old = @ \ {n}, !.toRq = IF n = Rq THEN << >> ELSE @, !.toRs = IF n = Rs THEN << >> ELSE @]
+  /\ h' = Append(h, [node |-> n, stim |-> StimOf(n, "reopen", Other(n), NoMsg, Val0, ZeroArgs)])
+  /\ bounces' = bounces + 1
+  /\ UNCHANGED <<todo, lim, pauses, restarts, closes, vsent, done>>
 
 (* the applications exchange further vouchers: the initiator sends a voucher (a Voucher request on the network), the responder a voucher  *)
 (* result (a VoucherResult response - or a Complete carrying it once the channel is in a finalization status)                             *)
@@ -219,23 +236,24 @@ AppVoucher ==
   /\ Live /\ vsent["A"] < MaxVouchers /\ todo = << >> /\ ch["A"].rec.status \notin Terminal \cup Cleanup
   /\ Do("A", StimOf("A", "SendVoucher", "B", [NoMsg EXCEPT !.v = VName(vsent["A"] + 1)], Val0, ZeroArgs), gs, net, todo)
   /\ vsent' = [vsent EXCEPT !["A"] = @ + 1]
-  /\ UNCHANGED <<lim, pauses, restarts, closes, done>>
+  /\ UNCHANGED <<lim, pauses, restarts, closes, bounces, done>>
 AppVoucherResult ==
   /\ Live /\ ch["B"].has /\ vsent["B"] < MaxVouchers /\ todo = << >> /\ ch["B"].rec.status \notin Terminal \cup Cleanup
   /\ Do("B", StimOf("B", "SendVoucherResult", "A", [NoMsg EXCEPT !.v = RName(vsent["B"] + 1)], Val0, ZeroArgs), gs, net, todo)
   /\ vsent' = [vsent EXCEPT !["B"] = @ + 1]
-  /\ UNCHANGED <<lim, pauses, restarts, closes, done>>
+  /\ UNCHANGED <<lim, pauses, restarts, closes, bounces, done>>
 
 Quiescent == net = << >> /\ todo = << >> /\ gs.toRq = << >> /\ gs.toRs = << >>
 Dump == /\ DumpAtEnd /\ ~done /\ (Len(h) = MaxLen \/ (Quiescent /\ ch["A"].rec.status \in Terminal /\ (~ch["B"].has \/ ch["B"].rec.status \in Terminal)))
         /\ PrintT(<<"@@case", ToJson([dir |-> Dir, nblocks |-> NBlocks, uniqueBytes |-> UniqueBytes, steps |-> h,
                                        expA |-> ch["A"].rec, expB |-> ch["B"].rec, hasB |-> ch["B"].has])>>)
-        /\ done' = TRUE /\ UNCHANGED <<ch, net, gs, todo, lim, pauses, restarts, closes, vsent, h>>
+        /\ done' = TRUE /\ UNCHANGED <<ch, net, gs, todo, lim, pauses, restarts, closes, vsent, bounces, h>>
 
 Next == \/ \E i \in 1..Len(net) : NetDeliver(i)
         \/ Todo \/ GsArrive \/ GsToRq \/ GsToRs \/ GsQueue \/ BlockTodo
         \/ \E n \in {"A","B"} : GsInitiated(n) \/ GsComplete(n) \/ AppPause(n) \/ AppRestart(n) \/ AppClose(n)
         \/ \E n \in {"A","B"}, how \in OldEnds : GsOldEnd(n, how)
+        \/ (\E n \in {"A","B"} : Bounce(n))
         \/ AppValidate \/ AppVoucher \/ AppVoucherResult \/ Dump
 Spec == Init /\ [][Next]_vars
 
@@ -262,5 +280,5 @@ C19_CrossLogs == ch["B"].has =>
                    /\ IsSubSeq(ch["A"].rec.results, ch["B"].rec.results)
                    /\ ch["A"].rec.vouchers[1] = "v0" /\ ch["B"].rec.vouchers[1] = "v0"
 Constr == Len(h) <= MaxLen
-View == <<ch, net, gs, todo, lim, pauses, restarts, closes, vsent, done, Accepted, RecvdAll, SentFinal, SawFinishA, SawFinalA, BAppEnded>>
+View == <<ch, net, gs, todo, lim, pauses, restarts, closes, vsent, bounces, done, Accepted, RecvdAll, SentFinal, SawFinishA, SawFinalA, BAppEnded>>
 =============================================================================
